@@ -40,7 +40,15 @@ RULE = ("complete products per group with the other groups at their baseline: co
         "no: 'False', 'FALSE', 'no', 'off', '0', blanks = finding C06-F4, fixed; '', other words = no client can be built, other numbers) x both browser "
         "bindings x 7 solicited / unsolicited shapes; how the configuration object is made {SPConfig, Config, IdPConfig "
         "loaded from the dict, config_factory('sp', dict), Saml2Client(config_file=module)} x 10 spellings x 5 shapes; "
-        "plus seeded random mixtures across groups, deliveries, encryption flags and set-ups. "
+        "THE METHOD A SubjectConfirmation NAMES (the older groups are bearer throughout): one confirmation = {holder-of-key with "
+        "KeyInfo, holder-of-key without, sender-vouches, unknown method} x {no data, data without InResponseTo, req-1, req-2, "
+        "unknown id} x InResponseTo(4) x allow(2) x {in clear, encrypted} over POST (reduced over Redirect; outstanding one / "
+        "empty); 8 further spellings (KeyInfo inside bearer / sender-vouches data, two KeyInfo, KeyName without KeyInfo, "
+        "method URIs that are nearly a defined one); a bearer confirmation answering req-1 beside one of another method in "
+        "both orders x 5 contents x 5 solicited / unsolicited set-ups x {clear, encrypted}; pairs without a bearer one; a "
+        "stray bearer one beside a good one of another method; triples; two assertions (clear + encrypted, both encrypted) "
+        "of different methods; SOAP / Artifact; other spellings of the option; status / version / shape failures; "
+        "plus seeded random mixtures across groups, deliveries, encryption flags, set-ups and methods. "
         "non-trivial = distinct abstract input differing from the all-valid baseline")
 TRUSTED = ["source-to-Gallina translator harness/py2coq.py + coq/theories/Base/Py.v (check_subject_confirmation_in_response_to is "
            "re-translated from the source text on every run; c06_source_check_sc_irt proves it equal to the model)",
@@ -51,8 +59,14 @@ TRUSTED = ["source-to-Gallina translator harness/py2coq.py + coq/theories/Base/P
            "them); Config.setattr / Config.getattr are translated whole; c06_source_* prove them equal to the model's "
            "load_special_val / client_init_val / truthy; that Config.load calls load_special for the 'sp' section, that "
            "_parse_response hands self.allow_unsolicited on and the class of the configuration object are covered by the "
-           "correspondence run only"]
-ASSUMPTIONS = ["signature, times, audience, recipient valid in every case; the message is encoded the way the named binding "
+           "correspondence run only",
+           "the cut harness/c06.py:subject_slice (takes the if statement between the attesting-entity test and the loop over "
+           "the confirmations out of AuthnResponse.get_subject, refuses any other shape and a loop that raises "
+           "UnsolicitedResponse itself); c06_source_subject_repeat_check proves it equal to the model's method-blind test "
+           "(sc_all_match_m every_method); that nothing in front of it returns early is covered by the correspondence run only"]
+ASSUMPTIONS = ["a confirmation of a method other than bearer carries the same Recipient / NotOnOrAfter as a bearer one and no Address; "
+               "a holder-of-key KeyInfo names a key (ds:KeyName) - whether the presenter holds that key is not the library's test",
+               "signature, times, audience, recipient valid in every case; the message is encoded the way the named binding "
                "prescribes (POST also deflated, which Entity.unravel accepts)",
                "the SP registers one HTTP-POST and one HTTP-Redirect assertion consumer endpoint and none for other bindings",
                "encrypted assertions are encrypted for the SP's own certificate (RSA-OAEP + AES-128-CBC through the stand-in) and "
@@ -99,6 +113,39 @@ LOADERS = ["spconfig", "config", "idpconfig", "factory-dict", "client-file"]
 COQ_LOADER = {"spconfig": "LSPConfig", "config": "LConfig", "idpconfig": "LIdPConfig", "factory-dict": "LFactoryDict",
               "client-file": "LClientFile"}
 SCD = [("nodata",), ("data", None), ("data", "req-1"), ("data", "req-2"), ("data", "unknown-9")]
+
+# ---- the Method a SubjectConfirmation names: name -> (Method URI, what its SubjectConfirmationData contains, the model's
+# constructor).  A confirmation is ("nodata",) / ("data", InResponseTo) [bearer] or (kind, InResponseTo, method name).
+CM = "urn:oasis:names:tc:SAML:2.0:cm:"
+KEYINFO = '<ds:KeyInfo xmlns:ds="http://www.w3.org/2000/09/xmldsig#"><ds:KeyName>holder</ds:KeyName></ds:KeyInfo>'
+KEYNAME = '<ds:KeyName xmlns:ds="http://www.w3.org/2000/09/xmldsig#">holder</ds:KeyName>'
+METHODS = {
+    "bearer": (CM + "bearer", "", "Bearer"),
+    "bearer-ki": (CM + "bearer", KEYINFO, "Bearer"),                # a bearer confirmation may carry a KeyInfo too
+    "hok-ki": (CM + "holder-of-key", KEYINFO, "HokKey"),
+    "hok-ki2": (CM + "holder-of-key", KEYINFO + KEYINFO, "HokKey"),
+    "hok": (CM + "holder-of-key", "", "HokBare"),                   # holder-of-key without a key: not used
+    "hok-name": (CM + "holder-of-key", KEYNAME, "HokBare"),         # ... or with something that is no KeyInfo
+    "sv": (CM + "sender-vouches", "", "SenderVouches"),
+    "sv-ki": (CM + "sender-vouches", KEYINFO, "SenderVouches"),
+    "other": (CM + "unheard-of", "", "OtherMethod"),
+    "other-case": (CM + "Bearer", "", "OtherMethod"),               # the URIs are compared as they are
+    "other-saml1": ("urn:oasis:names:tc:SAML:1.0:cm:bearer", "", "OtherMethod"),
+    "other-hok": (CM + "holder-of-key ", KEYINFO, "OtherMethod"),
+}
+
+
+def sc_method(sc):
+    return sc[2] if len(sc) > 2 and sc[2] else "bearer"
+
+
+def sc_irt(sc):
+    return sc[1] if len(sc) > 1 else None
+
+
+def with_method(sc, m):
+    """The confirmation [sc] under method [m] (bearer: the two-element form of the older groups)."""
+    return tuple(sc[:2]) if m == "bearer" else (sc[0], sc_irt(sc), m)
 SUCCESS = render.STATUS_SUCCESS
 
 
@@ -213,12 +260,50 @@ SRC2_SPECS = [{"name": "src2_load_special_value", "params": ["_val"]},
               {"name": "src2_option_value", "params": ["attr", "val_config", "val_default"], "lenient_raise_args": True,
                "exc_parents": {"SAMLError": ["Exception"]}},
               {"name": "src2_config_setattr", "params": ["self", "context", "attr", "val"], "returns_state": ["self"]},
-              {"name": "src2_config_getattr", "params": ["self", "attr", "context"]}]
+              {"name": "src2_config_getattr", "params": ["self", "attr", "context"]},
+              {"name": "src2_subject_repeat_check", "params": ["self", "subject"], "lenient_raise_args": True,
+               "exc_parents": {"UnsolicitedResponse": ["Exception"]}}]
+
+
+def subject_slice():
+    """The repeat of the InResponseTo test of loads() at the head of AuthnResponse.get_subject (e76039c1), cut out as a
+    function of (self, subject) (fail-closed: the statements around the cut must have exactly the expected shape, else
+    Untranslatable):
+      subject = self.assertion.subject / subjconf = [] / if not self.verify_attesting_entity(...): raise ... /
+      <CUT: one if statement> / for subject_confirmation in subject.subject_confirmation: _data = ...; if method == ...
+    ->  def subject_repeat_check(self, subject): <CUT>; return None
+    The evaluation loop behind the cut must not leave through UnsolicitedResponse itself (the test belongs in front of
+    it, over ALL confirmations)."""
+    import ast
+    from harness import py2coq2
+
+    U = py2coq2.Untranslatable
+    path = os.path.join(env.SRC, "saml2", "response.py")
+    with open(path) as f:
+        fn = py2coq2.find_function(ast.parse(f.read()), "AuthnResponse.get_subject")
+    body = [b for b in fn.body if not (isinstance(b, ast.Expr) and isinstance(b.value, ast.Constant))]
+    k = next((i for i, b in enumerate(body) if isinstance(b, ast.If) and "verify_attesting_entity" in ast.dump(b.test)), None)
+    if k is None or k + 2 >= len(body) or not any(_same(b, "subject = self.assertion.subject") for b in body[:k]):
+        raise U("AuthnResponse.get_subject: the head (subject = ..., verify_attesting_entity) has another shape")
+    cut, loop = body[k + 1], body[k + 2]
+    if not (isinstance(cut, ast.If) and not cut.orelse and isinstance(loop, ast.For) and not loop.orelse
+            and ast.dump(loop.iter) == ast.dump(ast.parse("subject.subject_confirmation").body[0].value)
+            and isinstance(loop.target, ast.Name) and loop.body
+            and _same(loop.body[0], "_data = %s.subject_confirmation_data" % loop.target.id)):
+        raise U("AuthnResponse.get_subject: no single if statement between the attesting-entity test and the loop over "
+                "subject.subject_confirmation")
+    if any(isinstance(n, ast.Raise) and "UnsolicitedResponse" in ast.dump(n) for n in ast.walk(loop)):
+        raise U("AuthnResponse.get_subject: the evaluation loop raises UnsolicitedResponse itself")
+    f1 = ast.parse("def subject_repeat_check(self, subject):\n pass").body[0]
+    f1.body = [cut, ast.parse("return None").body[0]]
+    f1.lineno, f1.end_lineno = cut.lineno, cut.end_lineno
+    return ("saml2/response.py:AuthnResponse.get_subject (the if statement between the attesting-entity test and the loop over "
+            "the confirmations, cut out by harness/c06.py:subject_slice)", ast.fix_missing_locations(f1), SRC2_SPECS[4])
 
 
 def regenerate_source2():
-    """coq/gen/C06Src2.v: the two cuts of config_slices, Config.setattr / Config.getattr (whole functions) and the
-    default of allow_unsolicited, re-translated from the source text as it is NOW (translator v2; C06/Source2.v proves
+    """coq/gen/C06Src2.v: the two cuts of config_slices, Config.setattr / Config.getattr (whole functions), the cut of
+    subject_slice (the repeat of the InResponseTo test in get_subject) and the default of allow_unsolicited, re-translated from the source text as it is NOW (translator v2; C06/Source2.v proves
     them equal to load_special_val / client_init_val of the model)."""
     import ast
     from harness import py2coq2
@@ -246,6 +331,13 @@ def regenerate_source2():
         except (py2coq2.Untranslatable, OSError, SyntaxError) as e:
             failed.append("%s: %s" % (q, e))
             out.append(py2coq2.poison(q, spec, str(e)))
+    names.append(SRC2_SPECS[4]["name"])
+    try:
+        origin, fn, spec = subject_slice()
+        out.append(py2coq2.translate_def(fn, spec, origin))
+    except (py2coq2.Untranslatable, OSError, SyntaxError, AttributeError, IndexError) as e:
+        failed.append("subject_slice: %s" % e)
+        out.append(py2coq2.poison(SRC2_SPECS[4]["name"], SRC2_SPECS[4], str(e)))
     out.append("(* saml2/client_base.py:Base.__init__, attribute_defaults[\"allow_unsolicited\"] *)\n"
                "Definition src2_allow_unsolicited_default : pyval := %s.\n" % (
                    "PErr" if default is None else "(PBool %s)" % ("true" if default else "false")))
@@ -445,6 +537,7 @@ def generate(ctx):
             for k, (irt, sc) in enumerate(word_shapes[:5]):
                 cases.append(mk(irt=irt, scs=(("data", sc),), opt=opt, how=how, out="many", tag="config-loader",
                                 delivery=FULL_DELIVERIES[k % 2]))
+    cases += method_cases()
     all_opts = OPT_DOCUMENTED * 3 + OPT_YES_WORDS + OPT_NO_WORDS + OPT_OTHER
     for _ in range(3000 if ctx.thorough else 400):
         cases.append(mk(irt=rng.choice(IRT), scs=rng.choice(sc_shapes), allow=rng.random() < 0.4,
@@ -462,6 +555,118 @@ def generate(ctx):
         if rng.random() < 0.5:
             c["opt"] = list(rng.choice(all_opts))
             c["how"] = rng.choice(LOADERS[:1] * 3 + LOADERS)
+        if rng.random() < 0.35:
+            names = ["bearer"] * 3 + MAIN_METHODS * 2 + list(METHODS)
+            c["scs"] = [list(with_method(tuple(sc), rng.choice(names))) for sc in c["scs"]]
+            if c["scs2"] is not None:
+                c["scs2"] = [list(with_method(tuple(sc), rng.choice(names))) for sc in c["scs2"]]
+    return cases
+
+
+MAIN_METHODS = ["hok-ki", "hok", "sv", "other"]
+
+
+def method_cases():
+    """The Method a SubjectConfirmation names (tag "methods").  The older groups are bearer throughout."""
+    cases = []
+    post, redirect = FULL_DELIVERIES
+    soap, artifact = ("soap", "soap", "post"), ("artifact", "b64", "absent")
+
+    def add(**kw):
+        kw.setdefault("tag", "methods")
+        kw.setdefault("out", "many")
+        cases.append(mk(**kw))
+
+    # one confirmation: method x what it carries x InResponseTo of the Response x allowed x in clear / encrypted (POST);
+    # over Redirect the encrypted ones and, in clear, the two solicited / unsolicited extremes
+    for m in MAIN_METHODS:
+        for sc in SCD:
+            scs = (with_method(sc, m),)
+            for irt in IRT:
+                for allow in (False, True):
+                    for sealed in ((), (True,)):
+                        add(irt=irt, scs=scs, allow=allow, sealed=sealed, sign_a=(allow and bool(sealed)))
+                add(irt=irt, scs=scs, delivery=redirect, sealed=(True,))
+                add(irt=irt, scs=scs, delivery=redirect, allow=(irt is None))
+            add(scs=scs, out="one", sealed=(True,))
+            add(scs=scs, out="one", irt="req-2", sealed=(True,))
+            add(scs=scs, out="empty", sealed=(True,), allow=True)
+    # the other spellings of the methods (what the data contains beside the attributes; URIs that are nearly a defined one)
+    for m in [x for x in METHODS if x not in MAIN_METHODS and x != "bearer"]:
+        for sc in (("nodata",), ("data", "req-1"), ("data", "req-2"), ("data", None)):
+            for irt, allow in (("req-1", False), (None, True), ("unknown-9", False)):
+                for sealed in ((), (True,)):
+                    add(irt=irt, scs=(with_method(sc, m),), allow=allow, sealed=sealed)
+    # two confirmations: a bearer one that answers req-1 beside one of another method, in both orders ...
+    good = ("data", "req-1")
+    for m in MAIN_METHODS:
+        for sc in SCD:
+            other = with_method(sc, m)
+            for scs in ((good, other), (other, good)):
+                for irt, allow in (("req-1", False), ("req-1", True), (None, False), (None, True), ("unknown-9", True)):
+                    for sealed in ((), (True,)):
+                        if not sealed and (irt, allow) in ((None, False), ("req-1", True)):
+                            continue
+                        add(irt=irt, scs=scs, allow=allow, sealed=sealed)
+                add(scs=scs, delivery=redirect, sealed=(True,))
+    # ... two of which none is bearer, a stray bearer one beside a good one of another method, three confirmations
+    nb = [("data", "req-1", "hok-ki"), ("data", "req-2", "hok-ki"), ("data", "req-1", "sv"), ("data", "req-2", "sv"),
+          ("data", None, "sv"), ("data", "req-1", "hok"), ("nodata", None, "hok-ki")]
+    for a in nb:
+        for b in nb:
+            if a != b:
+                for sealed in ((), (True,)):
+                    add(scs=(a, b), sealed=sealed)
+    for m in ("hok-ki", "sv"):
+        for stray in (("data", "req-2"), ("data", None), ("data", "unknown-9"), ("nodata",)):
+            for scs in ((stray, ("data", "req-1", m)), (("data", "req-1", m), stray)):
+                for sealed in ((), (True,)):
+                    add(scs=scs, sealed=sealed)
+                    add(scs=scs, sealed=sealed, irt=None, allow=True)
+    triples = [(good, ("data", "req-1", "hok-ki"), ("data", "req-1", "sv")),
+               (good, ("data", "req-1", "hok-ki"), ("data", "req-2", "sv")),
+               (("data", "req-2", "hok-ki"), good, ("data", "req-1", "sv")),
+               (("nodata", None, "hok-ki"), ("data", "req-1", "hok"), ("data", "req-1", "sv")),
+               (("nodata",), ("data", "req-1", "hok"), ("data", "unknown-9", "sv")),
+               (("data", "req-1", "sv"), ("data", "req-1", "other"), good),
+               (good, good, ("data", None, "hok-ki"))]
+    for scs in triples:
+        for sealed in ((), (True,)):
+            for dl in (post, redirect):
+                add(scs=scs, sealed=sealed, delivery=dl)
+            add(scs=scs, sealed=sealed, irt=None, allow=True)
+    # several assertions: the bearer one in clear or encrypted beside one of another method
+    for flags in ((False, True), (True, False), (True, True)):
+        for m in ("hok-ki", "sv"):
+            for sc in (("data", "req-1"), ("data", "req-2"), ("data", None)):
+                for first in (True, False):
+                    one, two = (good,), (with_method(sc, m),)
+                    for allow in (False, True):
+                        add(scs=one if first else two, scs2=two if first else one, n_assert=2, sealed=flags, allow=allow)
+    # the back channel and HTTP-Artifact: no correlation asked for / correlated like POST
+    for dl in (soap, artifact):
+        for m in MAIN_METHODS:
+            for sc in SCD[:4]:
+                for sealed in ((), (True,)):
+                    add(scs=(with_method(sc, m),), delivery=dl, sealed=sealed)
+                    if sc[0] == "data":
+                        add(scs=(with_method(sc, m),), delivery=dl, sealed=sealed, irt=None, out="none")
+    # other ways of writing "not allowed", misaddressed, status / version / shape failures under another method
+    for opt in (NONE, B(False), S("false"), I(0), S("False"), S("true"), I(1)):
+        for m in ("hok-ki", "sv"):
+            for sc in (("data", "req-2"), ("data", None), ("data", "req-1")):
+                add(scs=(with_method(sc, m),), opt=opt, sealed=(True,))
+            add(scs=(("data", "unknown-9", m),), irt="unknown-9", opt=opt, sealed=(True,))
+    tops = "urn:oasis:names:tc:SAML:2.0:status:Responder"
+    for m in ("hok-ki", "sv", "other"):
+        for sealed in ((), (True,)):
+            scs = (("data", "req-1", m),)
+            add(scs=scs, sealed=sealed, delivery=("post", "b64", "elsewhere"))
+            add(scs=scs, sealed=sealed, top=tops, second=status_codes()[1])
+            add(scs=scs, sealed=sealed, version="2.1")
+            add(scs=scs, sealed=sealed, n_authn=0)
+            add(scs=scs, sealed=sealed, n_authn=2)
+            add(scs=(("data", "req-2", m),), sealed=sealed, top=tops)
     return cases
 
 
@@ -524,6 +729,20 @@ def case_scs(case, k):
     return case["scs"] if k == 0 or case.get("scs2") is None else case["scs2"]
 
 
+def confirmation_xml(sc, data):
+    """Local variant of render.subject_confirmation: the Method the confirmation names and, inside its
+    SubjectConfirmationData, what that method puts there (ds:KeyInfo for holder-of-key)."""
+    from xml.sax.saxutils import quoteattr
+
+    uri, inner, _ = METHODS[sc_method(sc)]
+    d = ""
+    if data is not None:
+        d = "<saml:SubjectConfirmationData%s%s%s>%s</saml:SubjectConfirmationData>" % (
+            render.attr("InResponseTo", data.get("in_response_to")), render.attr("NotOnOrAfter", data.get("not_on_or_after")),
+            render.attr("Recipient", data.get("recipient")), inner)
+    return "<saml:SubjectConfirmation Method=%s>%s</saml:SubjectConfirmation>" % (quoteattr(uri), d)
+
+
 def render_case(case):
     assertions = []
     recipient = world.SP_ACS_REDIRECT if case["via"] == "redirect" else world.SP_ACS_POST
@@ -543,7 +762,14 @@ def render_case(case):
                     if sc[1] is not None:
                         d["in_response_to"] = sc[1]
                     confs.append({"method": render.SCM_BEARER, "data": d})
-            a["subject"]["confirmations"] = confs
+            if all(len(sc) <= 2 for sc in case_scs(case, k)):
+                a["subject"]["confirmations"] = confs
+            else:
+                # render.subject_confirmation writes an empty SubjectConfirmationData element: confirmations that
+                # name a method are written here and handed over behind the NameID
+                a["subject"]["confirmations"] = []
+                a["subject"]["name_id_xml"] = render.name_id(a["subject"].get("name_id", "subject-1")) + "".join(
+                    confirmation_xml(sc, c.get("data")) for sc, c in zip(case_scs(case, k), confs))
         assertions.append(a)
     r = spaccept.good_response(version=case["version"], status=(case["top"], case["second"], None))
     if case["irt"] is None:
@@ -664,9 +890,12 @@ def coq_case(case, obs):
 
     sealed = (list(case.get("sealed") or []) + [False] * case["n_assert"])[:case["n_assert"]]
     maj, mi = case["version"].split(".")
-    return "C06.Corr.mk %s %s %s %s %s %s (%d%%nat, %d%%nat) %s %s %s %s" % (
+    mss = [[METHODS[sc_method(sc)][2] for sc in case_scs(case, k)] if case["subject"] else [] for k in range(case["n_assert"])]
+    if all(m == "Bearer" for ms in mss for m in ms):
+        mss = []          # bearer throughout: the delivery of the older layers
+    return "C06.Corr.mk %s %s %s %s %s %s %s (%d%%nat, %d%%nat) %s %s %s %s" % (
         COQ_BINDING[case["via"]], COQ_DEST[case["dest"]], cq([bool(b) for b in sealed]),
-        coq_setup(case), cq([(k, v2) for k, v2 in (OUTS[case["out"]] or [])]), cq_opt(case["irt"]), int(maj), int(mi),
+        "[" + "; ".join("[" + "; ".join(ms) + "]" for ms in mss) + "]", coq_setup(case), cq([(k, v2) for k, v2 in (OUTS[case["out"]] or [])]), cq_opt(case["irt"]), int(maj), int(mi),
         cq(case["top"]), cq_opt(case["second"]), "[" + "; ".join(one(k) for k in range(case["n_assert"])) + "]", v)
 
 
